@@ -207,6 +207,9 @@ func (fx *Fx) havoc(st *State, ws *writeSet) {
 			key, fd, recvExpr := fx.calleeOf(c)
 			spec := fx.v.contracts.Funcs[key]
 			if spec == nil {
+				if fd != nil && singleReturn(fd.decl) == nil {
+					panic(unsupported("call to " + key + " inside a loop needs a contract (what it modifies is unknown)"))
+				}
 				continue
 			}
 			if len(spec.Modifies) == 0 {
